@@ -171,6 +171,12 @@ def _dedup_rows(it, pk_kind):
     elif pk_kind == 'empty':
         pk = PyList([])
         desc = PyDict({'schema': PyDict({'fields': PyList([]), 'primaryKey': pk})})
+    elif pk_kind == 'string':
+        # Table Schema: a single-field key may be given as a string; it means the one-field key [name]
+        from pyvc.api import sym_str
+        name = sym_str(it, 'pk_name')
+        desc = PyDict({'schema': PyDict({'fields': PyList([]), 'primaryKey': name})})
+        return mk_resource(it, 'rows', descriptor=desc), PyList([name])
     else:
         pk = str_seq(it, 'pk')
         desc = PyDict({'schema': PyDict({'fields': PyList([]), 'primaryKey': pk})})
@@ -182,7 +188,7 @@ def sym_deduper(vc):
     import z3
     fk = vc.under_contract('dataflows/processors/deduplicate.py', ['deduper'])
     spec = SpecModule(SPEC)
-    for pk_kind in ('absent', 'empty', 'list'):
+    for pk_kind in ('absent', 'empty', 'list', 'string'):
         def thunk(it, pk_kind=pk_kind):
             f = real_function(it, 'dataflows.processors.deduplicate', 'deduper')
             rows, pk = _dedup_rows(it, pk_kind)
@@ -219,7 +225,7 @@ def sym_deduper(vc):
             else:
                 check(it, 'post-silent', len(ys) == 0 and len(yf) == 0)
                 check(it, 'drains', rows.stream.drained is True)
-        paths = vc.explore(fk, thunk, min_paths=1 if pk_kind != 'list' else 3)
+        paths = vc.explore(fk, thunk, min_paths=1 if pk_kind not in ('list', 'string') else 3)
         expect_no_raise_or_same(vc, fk, paths)
     # lemma over the spec: emitting a row puts its key in `seen`, so a second pass drops nothing and a row is emitted
     # iff its key was not seen before  (first-of-key + idempotence follow by induction on the stream)
@@ -257,9 +263,12 @@ def nat_deduper(h):
     vals = [None, 0, 1, 'x', '']
     for _ in range(h.n()):
         pk = h.subset(keys, 0.5)
+        if h.rng.random() < 0.2:
+            pk = h.rng.choice(keys)          # Table Schema: a single-field key may be given as a string
         rows = h.rows(keys=keys, vals=vals, total=True, maxn=8)
         desc = {'schema': {'fields': [], 'primaryKey': pk}} if h.rng.random() < 0.8 else {'schema': {'fields': []}}
         pk_eff = desc['schema'].get('primaryKey', [])
+        pk_eff = [pk_eff] if isinstance(pk_eff, str) else pk_eff
         seen = set()
         want = []
         for r in rows:
